@@ -1,5 +1,5 @@
 (* Property C16 - print-then-parse round trip: precedence, grouping, layout and literal fidelity. RF (AtomsSel.v) is the rendering relation: every text a printer may emit for a tree; c16_final_parse says the parser (declarative semantics of the table regenerated from grammar.go, through engine completeness) reads every such text back as the tree. Statements only. *)
-From Coq Require Import List String ZArith NArith Bool. From Bexpr Require Import Base Strconv Ast Unicode Peg Typing Actions GoGrammar Sem Calc Calc2 Lex Lex2 Lex3 Skel Top C10 C16 Glue Spell Ptr StrLit Values Num NumLit Sels Coll Bind2 AtomsIn AtomsOp AtomsNotIn AtomsSel Fidelity Fid4 Univ Eval EndToEnd. Import ListNotations.
+From Coq Require Import List String ZArith NArith Bool. From Bexpr Require Import Base Strconv Ast Unicode Peg Typing Actions GoGrammar Sem Calc Calc2 Lex Lex2 Lex3 Skel Top C10 C16 Glue Spell Ptr StrLit Values Num NumLit Sels Coll Bind2 AtomsIn AtomsOp AtomsNotIn AtomsSel AtomsLeft Fidelity Fid4 Univ Eval EndToEnd. Import ListNotations.
 
 Theorem c16_quoted_literal :
   forall s : string, unquote (quote_double s) = Some s.
@@ -116,3 +116,37 @@ Theorem value_number_spec :
   int_part ip -> frac_part fp -> astop k -> all_valid k -> spec (PRef "Value") ((sg ++ ip ++ fp) ++ k) (VMV (cells_str (sg ++ ip ++ fp))) k.
 Proof. exact NumLit.value_number_spec. Qed.
 Print Assumptions value_number_spec.
+
+
+(* the value on the left of `in` / `not in` in every literal style on which Selector fails at once: double-quoted, back-quoted,
+   integer, negative, fractional (AtomsSel.lval; the matom component of the atoms c16_final_parse ranges over) *)
+Theorem left_values_exist :
+  (forall l : qlit, exists v : lval, v_txt (lv_v v) = q_txt l /\ v_lit (lv_v v) = l_lit l) /\
+  (forall l : rlit, exists v : lval, v_txt (lv_v v) = r_q l :: r_cs l ++ [r_q' l] /\ v_lit (lv_v v) = r_lit l) /\
+  (forall sg ip fp : list cell,
+   sign_part sg ->
+   int_part ip -> frac_part fp -> exists v : lval, v_txt (lv_v v) = (sg ++ ip ++ fp)%list /\ v_lit (lv_v v) = cells_str (sg ++ ip ++ fp)).
+Proof. exact AtomsLeft.left_values_exist. Qed.
+Print Assumptions left_values_exist.
+
+Theorem left_value_membership_parse :
+  forall (a : matom) (k : list cell),
+  astop k ->
+  spec (PRef "MatchExpression") (m_txt a ++ k)
+    (VExpr (EMatch (s_val (m_sr a)) (if m_neg a then OpNotIn else OpIn) (Some (v_lit (lv_v (m_lit a)))))) k.
+Proof. exact AtomsLeft.left_value_membership_parse. Qed.
+Print Assumptions left_value_membership_parse.
+
+Theorem raw_left_of_in :
+  exists n : N,
+    parse go_grammar None action_sem pred_sem 5000 "`x y` in m" =
+    Accepted (VExpr (EMatch {| stype := SelBexpr; spath := ["m"] |} OpIn (Some "x y"))) n.
+Proof. exact AtomsLeft.raw_left_of_in. Qed.
+Print Assumptions raw_left_of_in.
+
+Theorem number_left_of_not_in :
+  exists n : N,
+    parse go_grammar None action_sem pred_sem 5000 "-2.5 not in a.b" =
+    Accepted (VExpr (EMatch {| stype := SelBexpr; spath := ["a"; "b"] |} OpNotIn (Some "-2.5"))) n.
+Proof. exact AtomsLeft.number_left_of_not_in. Qed.
+Print Assumptions number_left_of_not_in.
